@@ -158,6 +158,8 @@ def strat_alloc(draw, tier, ends_only=False):
             "ends_only": ends_only,
             # constraints given as instances of the caller's own subclasses
             "subcls": draw(st.integers(0, 3)) == 0,
+            # user-defined resources identified by equal but distinct objects
+            "fresh_ids": draw(st.integers(0, 3)) == 0,
             "scale": draw(st.sampled_from([1, 1, 1, 1, 1, 2 ** 54 + 1,
                                            10 ** 18 + 9]))}
 
@@ -211,6 +213,7 @@ def check_alloc(case):
                                                  AlignResourceConstraint)
     from rig.place_and_route.exceptions import InsufficientResourceError
     m = case["machine"]
+    pr._fresh = bool(case.get("fresh_ids"))
     machine = pr.build_machine(m)
     names = [v["name"] for v in case["vertices"]]
     vobj = pr.vertex_objects(names, case["vkind"])
@@ -327,7 +330,50 @@ def check_sequence(case):
             (["after-aligned-call"] if aligned_first else [])}
 
 
+def enum_many(tier, shard, nshards):
+    """A request that has to be pushed past very many reserved ranges."""
+    counts = [300, 1100, 2500] + ([10000] if tier == "thorough" else [])
+    i = 0
+    for n in counts:
+        for gap, size, loc in ((0, 1, None), (1, 2, [0, 0]), (3, 4, None)):
+            i += 1
+            if i % nshards != shard:
+                continue
+            step = 2 + gap
+            res = [{"res": "U", "start": step * k + gap,
+                    "stop": step * k + gap + 2, "loc": loc}
+                   for k in range(n)]
+            yield {"machine": {"w": 1, "h": 1, "mesh": True,
+                               "resources": {"U": step * n + 3 * size,
+                                             "Cores": 2},
+                               "exceptions": [], "dead_chips": [],
+                               "dead_links": []},
+                   "vertices": [{"name": "v0", "needs": {"U": size},
+                                 "chip": [0, 0]},
+                                {"name": "v1", "needs": {"U": size,
+                                                         "Cores": 1},
+                                 "chip": [0, 0]}],
+                   "reservations": res, "align": {}, "vkind": "str",
+                   "ends_only": False, "subcls": False, "scale": 1}
+
+
+def check_many(case):
+    out = check_alloc(case)
+    require(not out.get("documented"), "allocate fails although two requests "
+            "fit behind the last of many reserved ranges",
+            {"reservations": len(case["reservations"])})
+    out["nontrivial"] = True
+    out["classes"] = ["reservations>=%d" % (
+        1000 if len(case["reservations"]) >= 1000 else 100)]
+    return out
+
+
 CLAUSES = [
+    Clause("many-reservations", check_many, enumerate=enum_many,
+           rule="300 / 1100 / 2500 (thorough: 10000) reserved ranges of one "
+                "resource, adjacent or with gaps smaller than the request, "
+                "global or for the chip: both requests must be placed behind "
+                "them", shards={"quick": 3, "thorough": 4}),
     Clause("sound", check_alloc, strategy=strat_free,
            rule="feasible placements x free reservation layouts (adjacent, "
                 "interleaved with gaps, global and per-chip) x alignments; "
